@@ -197,8 +197,9 @@ def encode_sequence(content, error=None, version=None, mode=None, mask=None,
         raise DataOverflowError(f'The data does not fit into Structured Append version {version}')
     chunks = divide_into_chunks(content, num_symbols)
     if symbol_count is not None:
-        segments = one_item_segments(max(chunks, key=len), mode)
-        version = find_version(segments, error, eci=eci, micro=False, is_sa=True)
+        # The chunk with the most characters is not necessarily the one with the most bits
+        version = max(find_version(one_item_segments(chunk, mode), error, eci=eci, micro=False, is_sa=True)
+                      for chunk in chunks)
     sa_info = partial(_StructuredAppendInfo, total=len(chunks) - 1,
                       parity=sa_parity_data)
     return [_encode(one_item_segments(chunk, mode), error=error, version=version,
